@@ -74,7 +74,8 @@ w("loader.case", "loader: comments, blank lines, CRLF, padding, case folding, re
 ])
 rd = []
 for i, n in enumerate([b"", raw(b"_dmarc"), raw(b"a\0"), raw(b"a.b", b"c\\d"), raw(b"\xff"), raw(b"AZaz09-"), raw(b"\x2f\x3a\x40\x5b\x60\x7b"),
-                       raw(b"a" * 63, b"b"), b"\x05ab", b"\x00", b"\x40" + b"a" * 64, raw(*([b"a" * 63] * 4)), raw(*([b"a" * 62] * 4)) + b"\x01b"]):
+                       raw(b"a" * 63, b"b"), b"\x05ab", b"\x00", b"\x40" + b"a" * 64, raw(*([b"a" * 63] * 4)), raw(*([b"a" * 62] * 4)) + b"\x01b",
+                       raw(b"\xff" * 63, b"\xff" * 63, b"\xff" * 63, b"\xff" * 61), raw(b"Z", b"z", b"A", b"[", b"@")]):
     rd.append("rd%d op=readable name=%s" % (i, hx(n)))
     rd.append("lw%d op=lower name=%s" % (i, hx(n)))
 for i, s in enumerate([b"", b".", b"..", b"a", b"a.", b"a..", b".a", b"a..b", b"a.b.c.", b"\\.", b"\\095", b"a" * 63, b"a" * 64,
